@@ -125,7 +125,9 @@ def _gen_faults(rng, cfg):
                 if rng.random() < cfg["flush_faults"]:
                     plan = {}
                     r = rng.random()
-                    if r < 0.6:
+                    if r < 0.15:
+                        plan["cancel_self_at"] = rng.randint(0, 2)
+                    elif r < 0.6:
                         plan["raise_at"] = rng.randint(0, 3)
                         if rng.random() < cfg["base_exc"]:
                             plan["base"] = True
